@@ -11,6 +11,8 @@ judged by three oracles:
   3. equivalence – the in-place variant on a replayed twin returns the receiver itself and
      leaves it with exactly the content the copying variant returned.
 """
+import copy
+
 from .. import explorer as E
 from .. import observe as O
 from .. import ops as OPS
@@ -26,6 +28,9 @@ FLAG_OPS = ('filter_first', 'filter_last', 'filter_pred', 'filter_md', 'filter_n
             'remove_empty', 'transform2', 'transform_zero', 'norm', 'rank', 'pa', 'rename_long',
             'rename_partial', 'rename_swap', 'rename_rot', 'rename_empty', 'rename_extra')
 _LAST_WATCH = []
+COPY_FAMILY = ('copy', 'transpose', 'filter_first', 'filter_last', 'filter_pred', 'filter_md', 'filter_none',
+               'filter_all', 'remove_empty', 'transform2', 'transform_zero', 'norm', 'rank', 'pa', 'head',
+               'transform2_flag', 'pa_flag')
 
 
 def apply(op, t, m, strict=True):
@@ -79,6 +84,12 @@ def starts(loaded=True):
                                     observation_group_metadata={'tree': ('newick', '(o1,o2);')},
                                     sample_group_metadata={'graph': ('text', 'a-b-c')}),
                        M(['o1', 'o2'], ['a', 'b', 'c'], D, [{'k': '1'}, {'k': '2'}], None))
+    # metadata whose first entry holds only atomic values while later ones hold lists
+    homd = [{'taxonomy': 'Unassigned', 'k': '1'}, {'taxonomy': ['k__A', 'p__B'], 'k': '2'}]
+    hsmd = [{'g': None}, {'g': ['x', 'y']}, {'g': 'u'}]
+    S['hetero2x3'] = (lambda: Table(np.array(D, float), ['o1', 'o2'], ['a', 'b', 'c'], copy.deepcopy(homd),
+                                    copy.deepcopy(hsmd)),
+                      M(['o1', 'o2'], ['a', 'b', 'c'], D, homd, hsmd))
     if loaded:
         S.update(OPS.loaded_start_tables())      # tables read from a file (thorough tier)
     return S
@@ -102,6 +113,14 @@ def mutator_sequences():
             if ids:
                 x.update_ids({i: str(i) + '_m' for i in ids}, axis=ax, inplace=True)
 
+    def nested(x):
+        # a list held inside an entry is changed where it is (through the entry the table hands out)
+        for ax in ('sample', 'observation'):
+            for e in (x.metadata(axis=ax) or ()):
+                for v in e.values():
+                    if isinstance(v, list):
+                        v.append('zz')
+
     def addmd(x):
         for ax in ('sample', 'observation'):
             x.add_metadata({i: {'zz': 'new', 'k': 'over', 'g': 'over'} for i in x.ids(ax)}, ax)
@@ -113,6 +132,10 @@ def mutator_sequences():
                 x.filter([ids[0]], axis=ax, invert=True, inplace=True)
         return f
     return {
+        # only for the operations that are, or are built on, copy(): there the library deep-copies the metadata, so
+        # even a list held inside an entry is the result's own (reordering / grouping operations re-wrap the entries
+        # but share the values inside them - objects handed out by metadata() are not part of the operation alphabet)
+        'nested': [nested],
         'filter': [dropfirst('observation'), dropfirst('sample')],
         'values': [lambda x: x.transform(lambda v, i, md: v * 2 + 1, axis='sample', inplace=True),
                    lambda x: x.transform(lambda v, i, md: v * 3, axis='observation', inplace=True),
@@ -149,6 +172,8 @@ def on_transition(tr, report):
     # ---------------------------------------------------------------- 2. aliasing
     for direction in ('result->original', 'original->result'):
         for sname, seq in SEQS.items():
+            if sname == 'nested' and name not in COPY_FAMILY:
+                continue
             t2, m2 = tr.rebuild()
             try:
                 res2 = OPS.apply(op, t2, m2, False)
